@@ -128,10 +128,10 @@ func H_Block() {
 	}
 	e := env.New(now)
 	setParams(e, "p.")
-	sp := pickSpec("a.", 0)
+	sp := pickSpec("a.", tid())
 	st := buildAuction(e, "a.", sp)
-	setAuctionSeq(e, 1)
-	pre := snapshot(e, trackedAccounts(0))
+	setAuctionSeq(e, tid()+1)
+	pre := snapshot(e, trackedAccounts(tid()))
 	preA := st.auction()
 	if nd.Param("overflow", 0) == 1 {
 		// listed finding: with some amount or price at or above 2^128 the 18-decimal arithmetic of matching/settlement can exceed the library's limits
@@ -153,8 +153,8 @@ func H_Block() {
 		nd.Cover("block-error")
 		return
 	}
-	post := snapshot(e, trackedAccounts(0))
-	a := getAuction(e, 0)
+	post := snapshot(e, trackedAccounts(tid()))
+	a := getAuction(e, tid())
 	ps := a.GetStatus()
 	nd.Observe("status", int64(ps))
 
@@ -189,12 +189,23 @@ func H_Block() {
 		nd.Cover("block-terminal")
 	}
 
+	// ---- C11 / C19: a block never deletes a bid, changes its identity or lowers its terms (flags may change) ----
+	postBids := bidsOf(e, tid())
+	nd.Assert("C11.block-keeps-every-bid", len(postBids) == len(st.bids))
+	if len(postBids) == len(st.bids) {
+		for i, b := range st.bids {
+			nb := postBids[i]
+			nd.Assert("C19.block-bid-identity-kept", nb.Id == b.Id && nb.AuctionId == b.AuctionId && nb.Bidder == b.Bidder && nb.Type == b.Type && nb.Coin.Denom == b.Coin.Denom)
+			nd.Assert("C11.block-bid-terms-kept", nd.And(nb.Price.Equal(b.Price), nb.Coin.Amount.Equal(b.Coin.Amount)))
+		}
+	}
+
 	// ---- C19 (terms): agreed terms never change ----
 	assertTermsUnchanged("C19.terms", preA, a, sp.nEnd)
 
 	// ---- C01: escrows hold exactly what the records owe ----
 	justSettled := sp.status != types.AuctionStatusVesting && sp.status != types.AuctionStatusFinished && settled
-	os, op, ov := owed(e, 0)
+	os, op, ov := owed(e, tid())
 	donS, donP, donV := nd.ZInt(st.donS), nd.ZInt(st.donP), nd.ZInt(st.donV)
 	if justSettled {
 		// settlement sweeps the whole selling and paying escrow (third-party coins included)
@@ -216,7 +227,7 @@ func H_Block() {
 
 	// ---- C09 (a): split of the proceeds at settlement ----
 	if justSettled {
-		qs := queuesOf(e, 0)
+		qs := queuesOf(e, tid())
 		proceeds := post.get(st.vestingAddr(), denomPay).Sub(pre.get(st.vestingAddr(), denomPay))
 		if sp.nSched == 0 {
 			nd.Assert("C09.no-schedule-no-instalments", len(qs) == 0)
@@ -231,7 +242,7 @@ func H_Block() {
 					nd.Assert("C09.instalment-nonnegative", amt.GE(nd.ZOf(0)))
 					nd.Assert("C09.instalment-unreleased", !q.Released)
 					nd.Assert("C09.instalment-release-time", q.ReleaseTime.Equal(st.base.VestingSchedules[i].ReleaseTime))
-					nd.Assert("C09.instalment-denom-auctioneer", q.PayingCoin.Denom == denomPay && q.Auctioneer == st.base.Auctioneer && q.AuctionId == 0)
+					nd.Assert("C09.instalment-denom-auctioneer", q.PayingCoin.Denom == denomPay && q.Auctioneer == st.base.Auctioneer && q.AuctionId == tid())
 					if i < sp.nSched-1 {
 						nd.Assert("C09.instalment-is-floor-share", amt.EQ(proceeds.Mul(w).FloorDiv(zS())))
 					}
@@ -277,7 +288,7 @@ func H_Block() {
 
 	// ---- C09 (b): release of instalments ----
 	if sp.status == types.AuctionStatusVesting {
-		qs := queuesOf(e, 0)
+		qs := queuesOf(e, tid())
 		nd.Assert("C09.instalments-kept", len(qs) == sp.nSched)
 		paid := nd.ZOf(0)
 		allReleased := true
@@ -316,11 +327,11 @@ func H_Block() {
 		}
 		if ended {
 			nd.Assert("C13.no-rounds-left-settles", nd.Implies(round == st.batchA.MaxExtendedRound, settled))
-			cur, lerr := e.K.GetLastMatchedBidsLen(e.Ctx, 0)
+			cur, lerr := e.K.GetLastMatchedBidsLen(e.Ctx, tid())
 			nd.Assert("C13.count-stored", lerr == nil)
 			// the count stored for the next comparison is the number of bids matched now
 			flagged := int64(0)
-			for _, b := range bidsOf(e, 0) {
+			for _, b := range bidsOf(e, tid()) {
 				if b.IsMatched {
 					flagged++
 				}
@@ -337,7 +348,7 @@ func H_Block() {
 		}
 	}
 	// ---- RI is preserved by the block (inductive step) ----
-	assertRI(e, 0, "RI.block")
+	assertRI(e, tid(), "RI.block")
 }
 
 func getParams(e *env.Env) types.Params {
